@@ -579,21 +579,24 @@ func doC10(c *Case, t *Tree, r *Result, replay any) {
 	}
 	r.Key = fmt.Sprintf("c10/%s/%s/%s", c.Target, mut, c.Stage+":"+c.Cause)
 	var obs []string
+	var fc stageFacts
 	for _, form := range forms {
-		// stage facts on a private copy
-		fc := facts(c.Target, cloneVal(form.v))
-		r.Evals++
 		if form.name == "direct" {
+			// stage facts (on a private copy)
+			fc = facts(c.Target, cloneVal(form.v))
+			r.Evals++
 			r.Observed = fc
 			// model vs code, stage by stage: drift only (C10 does not fix which descriptions are accepted)
 			if c.Stage != "" {
-				exp := map[string]stageFacts{
-					"accept":    {Acc: "no", Link: "-", Use: "-"},
-					"link":      {Acc: "yes", Link: "fail", Use: "-"},
-					"first_use": {Acc: "yes", Link: "ok", Use: "fail"},
-					"usable":    {Acc: "yes", Link: "ok", Use: "ok"},
-				}[c.Stage]
-				if exp.Acc != fc.Acc || exp.Link != fc.Link || exp.Use != fc.Use {
+				// (at which of the later steps - link or first use - a fault is noticed is left open: a
+				// repaired SDK checks roots and defaults while linking)
+				expAcc := "yes"
+				if c.Stage == "accept" {
+					expAcc = "no"
+				}
+				expUsable := c.Stage == "usable"
+				gotUsable := fc.Acc == "yes" && fc.Link == "ok" && fc.Use == "ok"
+				if expAcc != fc.Acc || expUsable != gotUsable {
 					r.drift(fmt.Sprintf("stage:model=%s/%s code=acc:%s,link:%s,use:%s", c.Stage, c.Cause, fc.Acc, fc.Link, fc.Use),
 						fmt.Sprintf("%s [%s] %s", t.canon(), mut, fc.note))
 				}
@@ -828,6 +831,24 @@ func doC09(c *Case, r *Result, replay any) {
 	asts := astScopes(a, target)
 	rnd := newRand(c.Seed + 17)
 
+	// shape comparison with the model's Describe(s): drift only.  (The field at which the two first differ
+	// also names the feature at fault in the signature of a behavioural difference found below.)
+	shapeField = ""
+	if len(c.Desc) == 0 {
+		shapeField = "?" // random schema: no model description to name the field at fault
+	}
+	if !neutral && len(c.Desc) > 0 {
+		if want, err := decodeCompact(c.Desc); err == nil {
+			got, gerr := fromGo(d0)
+			if gerr != nil {
+				r.Unabstracted++
+			} else if df := diffTrees(want, got, "$"); df != "" {
+				r.drift("describe_shape", "model vs SelfSerialize: "+df)
+				shapeField = lastField(df)
+			}
+		}
+	}
+
 	// rebuild: directly and after each real transport
 	reported := map[string]bool{}
 	report := func(via, stage, kind, frame, detail string) {
@@ -837,8 +858,8 @@ func doC09(c *Case, r *Result, replay any) {
 		}
 		reported[key] = true
 		v := "any"
-		if via != "id" {
-			v = via
+		if via != "id" && kind != "unlinked_ref" {
+			v = via // (a missing link step shows on whichever transport first reaches a reference)
 		}
 		r.violate(stage, kind, "none", v, frame, "["+via+"] "+detail)
 	}
@@ -898,17 +919,6 @@ func doC09(c *Case, r *Result, replay any) {
 		}
 	}
 
-	// shape comparison with the model's Describe(s): drift only
-	if !neutral && len(c.Desc) > 0 {
-		if want, err := decodeCompact(c.Desc); err == nil {
-			got, gerr := fromGo(d0)
-			if gerr != nil {
-				r.Unabstracted++
-			} else if df := diffTrees(want, got, "$"); df != "" {
-				r.drift("describe_shape", "model vs SelfSerialize: "+df)
-			}
-		}
-	}
 	// minimal form (every optional field omitted): differences are drift
 	if !neutral && len(c.Minimal) > 0 {
 		if mt, err := decodeCompact(c.Minimal); err == nil {
@@ -931,6 +941,10 @@ func doC09(c *Case, r *Result, replay any) {
 	}
 }
 
+// shapeField: the description field at which SelfSerialize and the model's Describe first differ in the
+// case at hand ("" when they agree).
+var shapeField string
+
 func lastField(diff string) string {
 	// "$.objects.A.properties.p.required: ..." -> "required"
 	i := strings.Index(diff, ":")
@@ -944,7 +958,7 @@ func lastField(diff string) string {
 	if k := strings.Index(p, "["); k >= 0 {
 		p = p[:k]
 	}
-	return p
+	return strings.Trim(p, "\"")
 }
 
 // c09Compare: the rebuilt schema describes itself identically and behaves like the original.
@@ -991,7 +1005,7 @@ func c09Compare(r *Result, via string, asViolation bool, report func(via, stage,
 				// the consumer applies foreign namespaces, on the rebuilt schema as on the original
 				_ = sup.Guard(func() { rs.ApplyNamespace(extObjects(), "ext") })
 			}
-			if compareBehaviour(r, rep, o.name, ast, o.sc, rs, rnd) {
+			if compareBehaviour(r, rep, o.name, ast, o.sc, rs, rnd, pass > 0) {
 				unlinked = true
 			}
 		}
@@ -1010,7 +1024,7 @@ func c09Compare(r *Result, via string, asViolation bool, report func(via, stage,
 
 // compareBehaviour returns true when the rebuilt schema turned out to be unlinked.
 func compareBehaviour(r *Result, rep func(stage, kind, frame, detail string), name string, ast *AST,
-	orig schema.Scope, rebuilt schema.Scope, rnd *randSrc) bool {
+	orig schema.Scope, rebuilt schema.Scope, rnd *randSrc, linkedByHand bool) bool {
 	g := &genCtx{scope: ast}
 	var root *AST
 	for _, o := range ast.objects() {
@@ -1024,6 +1038,9 @@ func compareBehaviour(r *Result, rep func(stage, kind, frame, detail string), na
 	structMapped := root.Layout != "" && root.Layout != "map"
 	inputs := g.objectInputs(root, 0)
 	pk := rootKind(ast)
+	if shapeField != "" {
+		pk = "field=" + shapeField
+	}
 	if reachableHazard(orig) {
 		return false // inputs could exhaust the stack on the original itself (C04's business)
 	}
@@ -1041,8 +1058,13 @@ func compareBehaviour(r *Result, rep func(stage, kind, frame, detail string), na
 		p2 := sup.Guard(func() { v2, e2 = rebuilt.Unserialize(cloneVal(in)) })
 		r.Evals++
 		if p2 != nil {
+			if foreignMsg(p2.Msg) && !linkedByHand {
+				// the external table could not be applied to a scope whose own references are unlinked (a
+				// one-of reads its members' properties while any namespace is applied): link by hand, retry
+				return true
+			}
 			if unlinkedMsg(p2.Msg) && !foreignMsg(p2.Msg) {
-				rep("first_use", "unlinked_ref", p2.Frame, fmt.Sprintf("%s: the rebuilt schema's references are not linked: Unserialize(%s) panics: %s", name, canonVal(in), p2.Msg))
+				rep("first_use", "unlinked_ref", "schema.(*RefSchema)", fmt.Sprintf("%s: the rebuilt schema's references are not linked: Unserialize(%s) panics: %s", name, canonVal(in), p2.Msg))
 				return true
 			}
 			rep("first_use", "panic:"+pk, p2.Frame, fmt.Sprintf("%s: Unserialize(%s) panics on the rebuilt schema only: %s", name, canonVal(in), p2.Msg))
